@@ -216,7 +216,10 @@ def _flat(x):
 _C13_OPS = ('+', '-', '*', '/', '||', '%')
 _C13_CMP = ('=', '<>', '!=', '<', '>', '<=', '>=', 'LIKE', 'NOT LIKE', 'ILIKE')
 _C13_TL = ('DATE', 'INTERVAL', 'TIMESTAMP')
-_C13_LISTBREAK = {'paren', 'typed-literal', 'case-operand', 'paren-operand'}
+_C13_LISTBREAK = {'paren'}
+
+
+_C13_UNITS = ('DAY', 'HOUR', 'MINUTE', 'MONTH', 'SECOND', 'YEAR')
 
 
 def _c13_item_class(it):
@@ -225,16 +228,20 @@ def _c13_item_class(it):
     aliased_as = len(up) >= 3 and up[-2] == 'AS'
     if up[0] == '(' and not aliased_as and up[-1] == ')':
         return 'paren'                      # un-aliased parenthesised expression or subquery
-    if any(w in _C13_TL for w in up) and not (aliased_as and up[0] in _C13_TL):
-        return 'typed-literal'
-    if 'CASE' in up and any(o in up for o in _C13_OPS):
-        return 'case-operand'               # an operation with a CASE operand
     if any(o in up for o in _C13_OPS):
         for i, w in enumerate(up):
             if w == '(' and (i == 0 or up[i - 1] in _C13_OPS + (',', '(')):
-                return 'paren-operand'      # an operation with a parenthesised operand
-    if len(up) >= 2 and up[-2].startswith("'") and up[-1] not in _C13_OPS and up[-1] not in (')', ','):
-        return 'string-literal-bare-alias'  # 'text' alias   (alias without AS after a string literal)
+                return 'paren-operand'      # an operation with a parenthesised operand (never fails on its own)
+    if 'CASE' in up and any(o in up for o in _C13_OPS):
+        return 'case-operand'               # (repaired; never fails on its own)
+    # a literal followed by an alias without AS:  'text' alias   /   DATE '2020-01-01' alias
+    if len(up) >= 2 and not aliased_as and up[-1] not in _C13_OPS and up[-1] not in (')', ',') \
+            and not up[-1].startswith("'") and up[-1] not in _C13_UNITS:
+        body = up[:-1]
+        if body[-1] in _C13_UNITS:
+            body = body[:-1]
+        if body and body[-1].startswith("'") and (len(body) == 1 or (len(body) == 2 and body[0] in _C13_TL)):
+            return 'literal-bare-alias'
     return None
 
 
@@ -261,7 +268,7 @@ def classify_C13(case, failure):
         if what == 'idlist-missing':
             if classes & _C13_LISTBREAK:
                 return 'C13:bounded:list-item-parenthesis-typed-literal-or-case-breaks-the-list'
-            if 'string-literal-bare-alias' in classes:
+            if 'literal-bare-alias' in classes:
                 return 'C13:bounded:string-literal-with-bare-alias-splits-the-list'
             return None
     if what == 'comparison-missing' and kind == 'cmp' and ('CASE' in words or '(' in words):
